@@ -2,7 +2,7 @@
 # usage: seed_verify.sh <property> <seed-dir-with-SEED/> <name> <tier> <check-id>...
 # Confirms a seeded change independently (fresh scratch worktree): demo passes on the
 # original, the repo's tests still pass with the change, the demo fails with it; then runs
-# the given checks against the changed tree. Stores the seed under /verif/seeded/<property>-<name>/.
+# the given checks (those of the /verif snapshot in $SEED_VERIFY_CHECKS, default /verif itself) against the changed tree. Stores the seed under /verif/seeded/<property>-<name>/.
 set -u
 P=$1; SRC=$2; NAME=$3; TIER=$4; shift 4
 export GOFLAGS=-mod=mod GOPROXY=off GOSUMDB=off GOTOOLCHAIN=local TZ=UTC
@@ -20,7 +20,7 @@ tests=$(/verif/tools/repo_tests.sh "$WT" | tail -1)
 echo "demo on original: exit=$d0 (0 expected) | demo with change: exit=$d1 (non-zero expected) | repo tests with change: $tests"
 caught=""; missed=""
 for id in "$@"; do
-  VERIF_REPO="$WT" VERIF_OUT="$OUT" /verif/run_check.sh "$id" "$TIER" > "$OUT/log.$id" 2>&1; rc=$?
+  VERIF_REPO="$WT" VERIF_OUT="$OUT" VERIF_GOCACHE=/verif/.gocache ${SEED_VERIFY_CHECKS:-/verif}/run_check.sh "$id" "$TIER" > "$OUT/log.$id" 2>&1; rc=$?
   sigs=$(grep "^  \[$id\]" "$OUT/log.$id" | sed "s/^  \[$id\] //" | tr '\n' ';')
   echo "check $id $TIER: exit=$rc signatures: $sigs"
   grep -A2 "^  \[$id\]" "$OUT/log.$id" | sed -n '2,3p' | cut -c1-400
